@@ -1153,6 +1153,49 @@ def case_inventory(mon):
     mon.cls("api-inventory", ("inventory", n), n)
 
 
+def case_kworder(mon, seedval):
+    """Equal keyword arguments written in another order are equal arguments:
+    every call that takes utc= / leap_seconds= / local= returns the same for
+    both orders."""
+    from pymeeus.Epoch import Epoch
+    from pymeeus import Coordinates as C
+    rng = random.Random(seedval)
+    for _ in range(30):
+        mon.evals += 1
+        y, m, d = rng.randrange(1972, 2030), rng.randrange(1, 13), \
+            rng.randrange(1, 29) + rng.choice((0.0, 0.5, 0.25))
+        k = rng.choice((0.0, 10, 27.0, 35.0, 37))
+        e = Epoch(y, m, d)
+        kws = [("utc", True), ("leap_seconds", k)]
+        calls = {
+            "Epoch(y, m, d, **kw)": lambda kw: Epoch(y, m, d, **kw).jde(),
+            "Epoch.set(jde, **kw)": lambda kw: (lambda o: (o.set(e.jde(),
+                                                                 **kw),
+                                                          o.jde())[1])(
+                Epoch(2451545.0)),
+            "Epoch.get_date(**kw)": lambda kw: e.get_date(**kw),
+            "Epoch.get_full_date(**kw)": lambda kw: e.get_full_date(**kw),
+            "check_input_date(e, **kw)": lambda kw: Epoch.check_input_date(
+                Epoch(e), **kw).jde(),
+            "mean_obliquity(y, m, d, **kw)": lambda kw: C.mean_obliquity(
+                y, m, int(d), **kw)(),
+            "nutation_longitude(e, **kw)": lambda kw: C.nutation_longitude(
+                Epoch(e), **kw)(),
+        }
+        for name, f in calls.items():
+            out = []
+            for order in (kws, kws[::-1]):
+                try:
+                    out.append(f(dict(order)))
+                except Exception as ex:
+                    out.append(("raised", type(ex).__name__))
+            mon.check("equal-args-equal-results", out[0] == out[1],
+                      lambda: {"target": name, "date": [y, m, d],
+                               "keywords": kws, "first_order": repr(out[0]),
+                               "reversed_order": repr(out[1])})
+    mon.cls("keyword-order", ("kworder", seedval))
+
+
 def case_copies(mon, seedval):
     """Copies made by copy constructors do not share state with the
     source."""
@@ -1446,7 +1489,7 @@ def key_oor(name, ex):
     return None
 
 
-CASES = {"inventory": case_inventory, "module": case_module, "copies": case_copies,
+CASES = {"inventory": case_inventory, "kworder": case_kworder, "module": case_module, "copies": case_copies,
          "out_of_range": case_out_of_range}
 
 
@@ -1464,6 +1507,8 @@ def run(mon, spec):
         case_copies(mon, sv)
         mon.begin("inventory", [])
         case_inventory(mon)
+        mon.begin("kworder", [sv])
+        case_kworder(mon, sv)
         mon.begin("out_of_range", [])
         case_out_of_range(mon)
         return
